@@ -10,7 +10,7 @@ EXPLANATION = ("Absolute wire values against tables transcribed from the specifi
                "(id, value); exactly one control stream opened first: open uni -> upgrade(StreamHeader::new_control()) -> send_settings before the "
                "worker loop; QPACK field sections: prefix 00 00, only static-indexed / static-name-reference / literal representations, "
                "pseudo-headers sorted first, request pseudo-header literals, static table rows; stream preamble and datagram prefix writers."
-               ' Also (C16-R7/R8/R9): frame payloads are written exactly once under partial writes; every datagram is prefixed by varint(quarter stream id); the QUIC close emitted at termination carries a registered H3 code.')
+               ' Also (C16-R7/R8/R9): frame payloads are written exactly once under partial writes; every datagram is prefixed by varint(quarter stream id); the QUIC close emitted at termination carries a registered H3 code. C16-R10: Frame::new_headers / new_settings / new_data / new_exercise build the kind they name with the payload given, Frame::new stores (kind, payload, session id) unchanged, Settings::builder / build hand on exactly the map the setters filled.')
 NOT_DECIDED = ["bytes produced by quinn / rustls", "Huffman coder output (external crate)"]
 TRUSTED = ["rustc const evaluation and MIR", "spec/h3.json, spec/qpack_static.json transcriptions"]
 
@@ -122,3 +122,20 @@ def run(ctx):
 
     ctx.rule("C16-R6", "QPACK static table rows == RFC 9204 Appendix A")
     shared.qpack_static_table(ctx, "C16-R6")
+
+    ctx.rule("C16-R10", "frame constructors and accessors: the kind written is the kind asked for, the payload is the payload given")
+    table = {
+        r"^wtransport_proto::frame::Frame::new_headers$": (r"^return Frame::new\(FrameKind::Headers,payload,Option::None\)$", []),
+        r"^wtransport_proto::frame::Frame::new_settings$": (r"^return Frame::new\(FrameKind::Settings,payload,Option::None\)$", []),
+        r"^wtransport_proto::frame::Frame::new_data$": (r"^return Frame::new\(FrameKind::Data,payload,Option::None\)$", []),
+        r"^wtransport_proto::frame::Frame::new_exercise$": (r"^return Frame::new\(FrameKind::Exercise\(id\),payload,Option::None\)$", []),
+        r"^wtransport_proto::frame::Frame::kind$": (r"^return self\.kind$", []),
+        r"^wtransport_proto::frame::Frame::payload$": (r"^return self\.payload$", []),
+        r"^wtransport_proto::settings::Settings::builder$": (r"^return SettingsBuilder\(Settings::new\(\)\)$", []),
+        r"^wtransport_proto::settings::SettingsBuilder::build$": (r"^return self\.0$", []),
+        r"^wtransport_proto::settings::Settings::new$": (r"^return Settings\(HashMap::new\(\)\)$", []),
+    }
+    shared.forwarders(ctx, "C16-R10", table, "frame/settings constructors")
+    f = A.fn("wtransport_proto::frame::Frame::new")
+    lf = {path_sig(p)[1] for p in nonpanic(walk(f))}
+    ctx.check("C16-R10", "Frame::new stores its arguments", lf == {"return Frame(kind,payload,session_id)"}, "Frame::new does not store (kind, payload, session_id) unchanged: %s" % sorted(lf), where(f))
